@@ -367,6 +367,7 @@ RULE = (
     "the boundary band (inside margin >= 1e-6, outside distance >= 1e-6 x extent); band outcomes are tallied. Non-trivial = a "
     "near-boundary/boundary target, or a non-Delaunay configuration (unbounded, fewer sources than receptors, dichromat, flat cloud)."
     " Every membership query is made twice on the same estimator / with the same argument arrays, whose state is byte-compared before and after; a sixth of the bounded under-determined systems have two sources with proportional captures."
+    " Every membership call is repeated on the rounded targets as an int64 array and as floats: same answers."
 )
 
 PROP = Prop(
